@@ -405,12 +405,22 @@ fn real_write_failure(case: &Case, sc: &Scratch) -> Result<(bool, String), (Stri
             window_last = Some(q);
         }
     }
-    if guard.is_some() {
+    // in a quarter of the cases the limit stays until shutdown() has returned: what is still
+    // buffered then cannot be written, which has to be reported as well
+    let until_shutdown = (seed >> 40) % 4 == 0;
+    if until_shutdown && guard.is_none() {
+        guard = FsizeLimit::set(4096);
+        window_first = Some(window_first.map_or(last_flush_q, |w: u32| w.min(last_flush_q)));
+        if window_last.is_some() {
+            // two windows: everything from the first one on can be affected
+            window_last = None;
+        }
+    }
+    if guard.is_some() && !until_shutdown {
         guard = None;
         window_last = Some(q);
     }
-    let _ = guard;
-    // tail: everything works again
+    // tail: everything works again (if the limit is lifted)
     let tail_a = q;
     write(10, &mut q, &mut lens);
     let mut tail_rotate_ok = true;
@@ -420,6 +430,11 @@ fn real_write_failure(case: &Case, sc: &Scratch) -> Result<(bool, String), (Stri
     let tail_b = q;
     write(11, &mut q, &mut lens);
     sess.shutdown();
+    if guard.is_some() {
+        guard = None;
+        window_last = Some(q);
+    }
+    let _ = guard;
     let snap = snapshot(&dir);
     let stray: Vec<String> = snap.iter().filter(|e| classify(cfg, &e.name).is_none()).map(|e| e.name.clone()).collect();
     if !stray.is_empty() {
@@ -454,7 +469,7 @@ fn real_write_failure(case: &Case, sc: &Scratch) -> Result<(bool, String), (Stri
     let first_found = found.first().copied().unwrap_or(q);
     let reported = std::fs::read_to_string(&err).map(|e| !crate::util::filter_errchan(&e).trim().is_empty()).unwrap_or(false);
     let (wf, wl) = (window_first.unwrap_or(q), window_last.unwrap_or(q));
-    let what = format!("{:?}, file size limit 4096 active during operations {start}..{} (records {wf}..{wl} can be affected); surviving records {found:?}", cfg.mode, start + len);
+    let what = format!("{:?}, file size limit 4096 active during operations {start}..{}{} (records {wf}..{wl} can be affected); surviving records {found:?}", cfg.mode, start + len, if until_shutdown { " and again from the end of the history until shutdown() had returned" } else { "" });
     let mut lost_any = false;
     for r in 0..q {
         if found.contains(&r) || (cleaned && r < first_found) {
@@ -468,7 +483,7 @@ fn real_write_failure(case: &Case, sc: &Scratch) -> Result<(bool, String), (Stri
     if lost_any && !reported {
         return Err(("real-write-failure:loss-not-reported".into(), format!("records are missing and the error channel is empty; {what}")));
     }
-    if !found.contains(&tail_b) || (cfg.rot.is_some() && !tail_rotate_ok) {
+    if !until_shutdown && (!found.contains(&tail_b) || (cfg.rot.is_some() && !tail_rotate_ok)) {
         return Err(("real-write-failure:no-recovery".into(), format!("after the limit was lifted: tail records {tail_a},{tail_b}, rotation ok = {tail_rotate_ok}; {what}")));
     }
     Ok((lost_any, format!("{:?}", cfg.mode)))
